@@ -52,7 +52,15 @@ def check_module_case(case, path=None):
             path = os.path.join(d, name + '.py')
             with open(path, 'w', encoding='utf-8') as f:
                 # some files start with a UTF-8 byte-order mark (Windows editors, utf-8-sig)
+                if case.get('rewritten'):
+                    # the path held another version a moment ago and was collected then: what counts is the file as it is now
+                    f.write('\n'.join(modules.decoy_lines(lines)) + '\n')
+                    f.close()
+                    with sandbox.quiet():
+                        list(core.parse_doctestables(path, style=STYLES[0], analysis='static'))
+                    f = open(path, 'w', encoding='utf-8')
                 f.write(('\ufeff' if case.get('bom') else '') + '\n'.join(lines) + '\n')
+                f.close()
         for style in STYLES:
             with sandbox.quiet():
                 exs = list(core.parse_doctestables(path, style=style, analysis='static'))
@@ -174,6 +182,9 @@ def module_strategy(D, max_items):
     case['bom'] = D.chance(1, 6)
     if case['bom']:
         case['features'] = sorted(set(case['features']) | {'utf8_bom'})
+    case['rewritten'] = D.chance(1, 4)
+    if case['rewritten']:
+        case['features'] = sorted(set(case['features']) | {'path_rewritten_after_collection'})
     return case
 
 
